@@ -810,6 +810,33 @@ func (c *Ctx) ruleA4() {
 							viaField = true
 						}
 					})
+					// or the step that resolves the controller puts it into the field itself
+					eachCall(f, func(hc ssa.CallInstruction) {
+						h := hc.Common().StaticCallee()
+						if h == nil || h.Blocks == nil || h.Pkg != f.Pkg || viaField {
+							return
+						}
+						var inner []ssa.Value
+						eachCall(h, func(ic ssa.CallInstruction) {
+							if isResolve(ic) {
+								inner = append(inner, ic.Value())
+							}
+						})
+						if len(inner) == 0 {
+							return
+						}
+						dh := derived(inner, flowOpts{})
+						eachInstr(h, func(in ssa.Instruction) {
+							st, ok := in.(*ssa.Store)
+							if !ok || !dh[st.Val] {
+								return
+							}
+							if fa2, ok := st.Addr.(*ssa.FieldAddr); ok && want != nil && fieldVarOf(fa2) == want {
+								viaField = true
+								resolves = append(resolves, inner...)
+							}
+						})
+					})
 				}
 			}
 			if ac != nil && (d[ac] || d[strip(ac)] || viaField) {
